@@ -516,3 +516,6 @@ REGISTRY = {
     'C16': dict(modules=['LibconfigModel.Properties.C16'], run=run_C16, assumptions=COMMON_ASSUMPTIONS),
     'C19': dict(modules=['LibconfigModel.Properties.C19'], run=run_C19, assumptions=COMMON_ASSUMPTIONS),
 }
+
+import props_c01
+REGISTRY['C01'] = dict(modules=['LibconfigModel.Properties.C01'], run=props_c01.run_C01, assumptions=COMMON_ASSUMPTIONS)
